@@ -395,13 +395,23 @@ func runVarFam(vec map[string]interface{}) map[string]interface{} {
 	feats := parseFeats(gList(vec, "feats"))
 	gb := renderGb(ref, feats)
 	gff := renderGff(ref, feats)
-	msa := renderFasta(append([]rec{{"ref", R}}, qs...), 0, false)
+	wrap, crlf := gIntD(vec, "wrap", 0), gBool(vec, "crlf")
+	mq := qs
+	if gBool(vec, "lowq") {
+		// lower-case query rows in the alignment (the SAM form keeps upper case)
+		mq = make([]rec, len(qs))
+		for i, q := range qs {
+			mq[i] = rec{q.name, strings.ToLower(q.seq)}
+		}
+	}
+	msa := renderFasta(append([]rec{{"ref", R}}, mq...), wrap, crlf)
 	if gBool(vec, "refdup") && len(qs) > 1 {
+		qs := mq
 		// the reference record a second time, in the middle of the alignment (two alignments to one reference, concatenated)
 		all := append([]rec{{"ref", R}}, qs[:len(qs)/2]...)
 		all = append(all, rec{"ref", R})
 		all = append(all, qs[len(qs)/2:]...)
-		msa = renderFasta(all, 0, false)
+		msa = renderFasta(all, wrap, crlf)
 	}
 	refFa := renderFasta([]rec{{"ref", ref}}, 0, false)
 	var srecs []samRec
